@@ -186,6 +186,38 @@ def run(prog, chk):
             and (P & ((1 << 64) - 1)) == (1 << 64) - 1
         chk.ob("R7.group", cn, ok, prog.cls(cn).module.path, "P has %s bits, G=%r" % (P.bit_length() if isinstance(P, int) else "?", G))
 
+    # R8 identification strings: V_C / V_S are the lines as exchanged (RFC 4253 s8: without CR LF, *with* any comment) --
+    writers = []
+    for g in prog.all_functions():
+        for (st, t, v) in attr_writes(g.node):
+            if t.attr in ("remote_version", "local_version") and unparse(t.value) == "self" and g.cls is not None and "Transport" in [c.name for c in prog.mro(g.cls.name)]:
+                writers.append((g, st, t.attr, v))
+    rv = [(g, st, v) for (g, st, a, v) in writers if a == "remote_version" and g.name != "__init__"]
+    chk.floor("R8", "writers of remote_version outside __init__", len(rv), 1)
+    for i, (g, st, v) in enumerate(rv):
+        flg = Flow(prog, g, implicit=False)
+        nodes = [n for n in flg.cfg.nodes_for(st) if n.id in flg.live]
+        exps = flg.expand(v, nodes[0]) if nodes else []
+        alts = sorted(set(unparse(a) for a in exps))
+        okv = bool(exps) and all(isinstance(a, ast.Call) and isinstance(a.func, ast.Attribute) and a.func.attr == "readline" for a in exps)
+        chk.ob("R8.peer-identification-string-kept-whole", "%s#%d" % (g.qual, i), okv, "%s:%d" % (g.module.path, st.lineno),
+               "remote_version = %s (the line read from the peer, untruncated: the peer hashed its comment too)" % alts)
+    lv = [(g, st, v) for (g, st, a, v) in writers if a == "local_version"]
+    sends = []
+    for g in prog.all_functions():
+        if g.cls is None or g.cls.name != "Transport":
+            continue
+        for c in walk_no_defs(g.node):
+            if isinstance(c, ast.Call) and isinstance(c.func, ast.Attribute) and c.func.attr == "write_all" and "local_version" in unparse(c):
+                sends.append((g, c))
+    chk.floor("R8", "sends of the local identification string", len(sends), 1)
+    for i, (g, c) in enumerate(sends):
+        a0 = unparse(c.args[0]) if c.args else "?"
+        chk.ob("R8.own-identification-string-sent-as-hashed", "%s#%d" % (g.qual, i), a0 in ("b(self.local_version + '\\r\\n')", "b(self.local_version + '\r\n')"),
+               "%s:%d" % (g.module.path, c.lineno), "sends %s: exactly the hashed string plus CR LF" % a0)
+    chk.ob("R8.own-identification-string-fixed", "Transport.local_version", all(g.name == "__init__" for (g, st, v) in lv) and bool(lv), prog.func("Transport.__init__").loc,
+           "written in %s" % sorted(set(g.qual for (g, st, v) in lv)))
+
 
 def check_handler(prog, chk, h, role, fam, hl):
     fl = hl.fl
